@@ -80,7 +80,9 @@ func vfC15GenCLI(t *rapid.T) vfC15CLIScenario {
 	}
 	s.ENIConf = g.JSONField(t, otherKind, g.ENIConf, g.ENIConfHostile)
 	if rapid.Bool().Draw(t, "hasnp") {
-		v := g.TextField(t, otherKind, func(t *rapid.T) string { return rapid.SampledFrom([]string{"false", "0", "", "true", "1"}).Draw(t, "np") }, "", nil)
+		v := g.TextField(t, otherKind, func(t *rapid.T) string {
+			return rapid.SampledFrom([]string{"false", "0", "", "true", "1"}).Draw(t, "np")
+		}, "", nil)
 		s.DisableNP = &v
 	}
 	return s
